@@ -341,8 +341,10 @@ def treeinfo_old(sym, layout, arch, layered, with_addon):
     sym.check("second-dump-identical", back.dumps() == out)
 
 
-def treeinfo_00(sym, arch, with_variant, with_discnum):
-    """a pre-productmd treeinfo ([general] only): the documented mapping of doc/treeinfo-1.x"""
+def treeinfo_00(sym, arch, with_variant, with_discnum, blank_packagedir=False, with_repository=False):
+    """a pre-productmd treeinfo ([general] only): the documented mapping of doc/treeinfo-1.x
+    blank_packagedir: 'packagedir =' left blank, the usual historical spelling of "the packages are at the top" ('.');
+    with_repository: [general] names a repository of its own (packagedir and repository are independent keys)"""
     p = SortedConfigParser()
     family = sym.str("family", 3, minlen=1, alphabet=[(97, 122)])         # not one of the product names with special handling
     version = sym.str("version", 3, minlen=1, alphabet=[(48, 57), (46, 46)])
@@ -354,7 +356,12 @@ def treeinfo_00(sym, arch, with_variant, with_discnum):
     p.set("general", "arch", arch)
     p.set("general", "timestamp", str(ts))
     pk = sym.str("packagedir", 2, minlen=1, alphabet=[(97, 122)])
-    p.set("general", "packagedir", pk)
+    p.set("general", "packagedir", "" if blank_packagedir else pk)
+    want_pk = "." if blank_packagedir else pk
+    want_repo = "."
+    if with_repository:
+        want_repo = sym.str("repository", 3, minlen=1, alphabet=[(97, 122)])
+        p.set("general", "repository", want_repo)
     if with_variant:
         p.set("general", "variant", "Server")
     if with_discnum:
@@ -378,9 +385,11 @@ def treeinfo_00(sym, arch, with_variant, with_discnum):
         sym.check("variant", sorted(ti.variants.variants.keys()) == ["Server"])
         v = ti.variants["Server"]
         if arch == "src":
-            sym.check("source-packages", v.paths.source_packages == pk)
+            sym.check("source-packages", v.paths.source_packages == want_pk)
+            sym.check("source-repository", v.paths.source_repository == want_repo)
         else:
-            sym.check("packages", v.paths.packages == pk)
+            sym.check("packages", v.paths.packages == want_pk)
+            sym.check("repository", v.paths.repository == want_repo)
     if with_discnum:
         sym.check("media", sym.and_(ti.media.discnum == dn, ti.media.totaldiscs == dn + 1))
     out = ti.dumps()
@@ -464,6 +473,9 @@ def jobs(tier, seed):
             for wd in (True, False):
                 if wv:          # a [general] section without 'variant' is only accepted for a few product names (heuristics): fixtures only
                     out.append({"harness": "treeinfo_00", "params": {"arch": arch, "with_variant": wv, "with_discnum": wd}})
+                    for bp, wr in ((True, True), (True, False), (False, True)):
+                        if big or (bp + wr + wd + (arch == "src") + seed) % 2 == 0:
+                            out.append({"harness": "treeinfo_00", "params": {"arch": arch, "with_variant": wv, "with_discnum": wd, "blank_packagedir": bp, "with_repository": wr}})
     fx = _fixtures()
     for i, (kind, rel) in enumerate(fx):
         if True:            # every shipped fixture, in both tiers (about a second each)
